@@ -12,13 +12,18 @@ import (
 	"strings"
 	"testing"
 
+	"github.com/BlackVectorOps/semantic_firewall/v3/internal/sandbox"
 	"github.com/BlackVectorOps/semantic_firewall/v3/internal/verifshim/progfam"
 	"github.com/BlackVectorOps/semantic_firewall/v3/internal/verifshim/vh"
 )
 
 func cfgRun(sfw string, gmp int, args ...string) (string, error) {
+	return cfgRunEnv(sfw, gmp, nil, args...)
+}
+
+func cfgRunEnv(sfw string, gmp int, env []string, args ...string) (string, error) {
 	cmd := exec.Command(sfw, args...)
-	cmd.Env = append(os.Environ(), fmt.Sprintf("GOMAXPROCS=%d", gmp))
+	cmd.Env = append(append(os.Environ(), fmt.Sprintf("GOMAXPROCS=%d", gmp)), env...)
 	var out, errb strings.Builder
 	cmd.Stdout, cmd.Stderr = &out, &errb
 	err := cmd.Run()
@@ -97,7 +102,10 @@ func firstDiff(a, b string) string {
 }
 
 // TestVerifC10Configs: check (directory), diff (ties among rename candidates) and scan (both
-// back ends) as fresh processes for GOMAXPROCS in {1,2,16} x 3 repetitions.
+// back ends) as fresh processes for GOMAXPROCS in {1,2,16} x 3 repetitions. The PebbleDB scan is
+// also run the way `sfw scan` runs it by default: as the re-executed worker process
+// (`sfw internal-worker scan ...` with SFW_SANDBOX_ID set - what both the runsc container and the
+// direct fallback start), which scans a private temporary copy of the database.
 func TestVerifC10Configs(t *testing.T) {
 	r := vh.New("process-repetitions")
 	defer r.Write()
@@ -142,16 +150,20 @@ func TestVerifC10Configs(t *testing.T) {
 			}
 		}
 	}
+	workerEnv := []string{sandbox.EnvSandboxID + "=1"}
 	cmds := []struct {
 		name string
 		args []string
+		env  []string
 	}{
-		{"diff", []string{"diff", "--no-sandbox", oldF, newF}},
-		{"check-dir", []string{"check", "--no-sandbox", tree}},
-		{"check-dir-scan", []string{"check", "--no-sandbox", "--scan", "--db", dbJSON, tree}},
-		{"scan-json", []string{"scan", "--no-sandbox", "--db", dbJSON, "--threshold", "0.5", tree}},
-		{"scan-pebble", []string{"scan", "--no-sandbox", "--db", dbPebble, "--threshold", "0.5", tree}},
-		{"scan-pebble-exact", []string{"scan", "--no-sandbox", "--db", dbPebble, "--exact", tree}},
+		{"diff", []string{"diff", "--no-sandbox", oldF, newF}, nil},
+		{"check-dir", []string{"check", "--no-sandbox", tree}, nil},
+		{"check-dir-scan", []string{"check", "--no-sandbox", "--scan", "--db", dbJSON, tree}, nil},
+		{"scan-json", []string{"scan", "--no-sandbox", "--db", dbJSON, "--threshold", "0.5", tree}, nil},
+		{"scan-pebble", []string{"scan", "--no-sandbox", "--db", dbPebble, "--threshold", "0.5", tree}, nil},
+		{"scan-pebble-exact", []string{"scan", "--no-sandbox", "--db", dbPebble, "--exact", tree}, nil},
+		// the argument vector RunScan hands to the sandbox for `sfw scan --db sigs.db --threshold 0.5 tree`
+		{"scan-pebble-worker", []string{"internal-worker", "scan", "--target", tree, "--threshold", "0.5", "--deps-depth", "direct", "--db", dbPebble}, workerEnv},
 	}
 	for ci, c := range cmds {
 		if !vh.Mine(ci) {
@@ -161,7 +173,7 @@ func TestVerifC10Configs(t *testing.T) {
 		distinct := map[string]bool{}
 		for _, gmp := range []int{1, 2, 16} {
 			for rep := 0; rep < 3; rep++ {
-				out, err := cfgRun(sfw, gmp, c.args...)
+				out, err := cfgRunEnv(sfw, gmp, c.env, c.args...)
 				r.Eval()
 				if err != nil {
 					r.Fail("%s: %v", c.name, err)
